@@ -66,6 +66,31 @@ def temperature_is_some_finite_number(self, status_block=None):
     return t
 
 
+@harness(prop="C11", target="geckolib.driver.accessor:GeckoTempStructAccessor._get_value", proves="temperature_is_some_finite_number",
+         name="temperature_reads_for_any_block_and_unit_byte")
+def temperature_reads_for_any_block_and_unit_byte(upos: int, tpos: int, block: bytes, bitfield: bool):
+    """the assumed temperature summary against the real body: no exception and a finite reading for EVERY block,
+    including a unit byte outside the two-entry table (the enum then reads 'Unknown').  Exact-rational floats:
+    only totality and the range are claimed here, the exact value is C14."""
+    from contracts.c02_accessor import RecStruct
+    from geckolib.driver.accessor import GeckoEnumStructAccessor
+    exact_rational_floats(True)
+    requires(len(block) == 1024)
+    requires(both(0 <= upos, upos <= 1023, 0 <= tpos, tpos + 2 <= 1024))
+    s = RecStruct(block)
+    if bitfield:
+        units = GeckoEnumStructAccessor(s, "TempUnits", upos, 2, ["C", "F"], None, 2, "ALL")
+    else:
+        units = GeckoEnumStructAccessor(s, "TempUnits", upos, None, ["F", "C"], None, None, "ALL")
+    t = GeckoTempStructAccessor(s, "SetpointG", tpos, "ALL")
+    s.accessors = {"TempUnits": units, "SetpointG": t}
+    v = t.value
+    ensures("finite-non-negative-whatever-the-unit-byte", both(v >= 0, v <= 7000))
+    w = t._get_value(block)
+    ensures("same-reading-from-an-explicit-block", w == v)
+    cover("unit-byte-outside-the-table", both(not bitfield, byte_at(block, upos) >= 2))
+
+
 # ----------------------------------------------------------------------------- set-up
 class TaskMan:
     unique_id = "SPA010203040506"
@@ -277,16 +302,17 @@ def every_device_member_reads_for_any_block(combo, block: bytes):
 
 
 # ---------------------------------------------------------------- watercare / reminders
+class OwnerStub:
+    """what the automation objects take from the facade that owns them"""
+    unique_id = "id"
+    name = "spa"
+    _spa = None
+
+
 @harness(prop="C11", target="geckolib.automation.watercare:GeckoWaterCare.__str__")
 def any_watercare_mode_byte_renders(mode: int, unset: bool):
     requires(both(0 <= mode, mode <= 255))
-    wc = new(GeckoWaterCare)
-    wc._observers = []
-    wc._name = "WaterCare"
-    wc._key = "WATERCARE"
-    wc._unique_id = "id"
-    wc._parent_name = "spa"
-    wc.active_mode = None
+    wc = GeckoWaterCare(OwnerStub())                    # the real constructor: members are read before any update too
     if not unset:
         wc.change_watercare_mode(mode)
     touch(wc.mode)
@@ -302,14 +328,15 @@ def any_reminder_list_renders(t1: int, d1: int, t2: int, d2: int, n: int):
     t1 = concrete_cases(t1, 0, 6)
     t2 = concrete_cases(t2, 0, 6)
     n = concrete_cases(n, 0, 2)
-    rm = new(GeckoReminders)
-    rm._observers = []
-    rm._name = "Reminders"
-    rm._key = "REMINDERS"
-    rm._unique_id = "id"
-    rm._parent_name = "spa"
-    rm._active_reminders = []
-    rm._last_update = None
+    rm = GeckoReminders(OwnerStub())                    # the real constructor
+    # every member is readable before the first update has arrived ...
+    touch(rm.last_update)
+    touch(str(rm))
+    touch(rm.monitor)
+    ensures("nothing-listed-before-the-first-update", len(rm.reminders) == 0)
+    for t in list(GeckoReminderType):
+        ensures("no-reminder-found-before-the-first-update", rm.get_reminder(t) is None)
+    # ... and after it
     recs = [(GeckoReminderType(t1), d1), (GeckoReminderType(t2), d2)][0:n]
     rm.change_reminders(recs)
     touch(rm.last_update)
